@@ -20,27 +20,30 @@ def jobs(tier):
     out = []
     chars = ['char'] if tier == 'quick' else list(CHARS)
     for c in chars:
-        out.append(dict(name='UnEscape<%s>.memory-safety' % c, unit=UNIT, fn=fn_unescape(c),
+        usp = unescape_safety_specs(c)
+        out.append(dict(name='UnEscape<%s>.memory-safety' % c, unit=UNIT, fn=fn_unescape(c), scope_re=unescape_hex_scope(usp[fn_unescape(c)])[1],
+                        scope_note='the hex-digit clause of UnEscape is decided under C07',
                         roots=['Qentem::JSONUtils::UnEscape<%s, QV::GStream<%s>>' % (c, c)],
-                        specs=unescape_safety_specs(c), replace=[fn_write(c), fn_append(c), fn_notempty(c), fn_hex2(c), fn_toutf(c)],
+                        specs=unescape_safety_specs(c), replace=[fn_write(c), fn_append(c), fn_notempty(c), fn_hex2(c), fn_hex3(c), fn_toutf(c)], ghosts=GH_HEX, pre=HEX_PRE, prune_specs=True, cex_K=8,
                         solver='cadical', timeout=300, must_have=['postcondition', 'loop_invariant_step', 'loop_decreases', 'pointer_dereference'],
                         clause='un-escaping touches only [content, content+length), terminates, returns 0 or a cursor <= length'))
         nf = unescape_safety_specs(c)
-        nf[fn_unescape(c)] = dict(nf[fn_unescape(c)], refs=['stream'], requires=['terminated == 0'], assigns=[],
+        nf[fn_unescape(c)] = dict(nf[fn_unescape(c)], refs=['stream'], requires=['terminated == 0', '!g_badhex'], assigns=['g_badhex'],
                                   ensures=[e for e in nf[fn_unescape(c)]['ensures'] if 'terminated' not in e])
-        out.append(dict(name='UnEscape<%s>.memory-safety.no-flag' % c, unit=UNIT, fn=fn_unescape(c),
+        out.append(dict(name='UnEscape<%s>.memory-safety.no-flag' % c, unit=UNIT, fn=fn_unescape(c), scope_re=unescape_hex_scope(nf[fn_unescape(c)])[1],
+                        scope_note='the hex-digit clause of UnEscape is decided under C07',
                         roots=['Qentem::JSONUtils::UnEscape<%s, QV::GStream<%s>>' % (c, c)], fixed_args={'terminated': '0'},
-                        specs=nf, replace=[fn_write(c), fn_append(c), fn_notempty(c), fn_hex2(c), fn_toutf(c)],
+                        specs=nf, replace=[fn_write(c), fn_append(c), fn_notempty(c), fn_hex2(c), fn_hex3(c), fn_toutf(c)], ghosts=GH_HEX, pre=HEX_PRE, prune_specs=True, cex_K=8,
                         solver='cadical', timeout=300, must_have=['postcondition', 'loop_invariant_step', 'loop_decreases', 'pointer_dereference'],
                         clause='the same with the optional terminated flag omitted (null), as the un-escaping of keys and the tests call it'))
         out.append(dict(name='HexStringToNumber<%s>.memory-safety' % c, unit=UNIT, fn=fn_hex3(c),
                         roots=['Qentem::Digit::HexStringToNumber<unsigned int, %s, unsigned int>' % c],
-                        specs=hex_safety_specs(c), solver='cadical', timeout=300,
+                        specs=hex_safety_specs(c), ghosts=GH_HEX, pre=HEX_PRE, solver='cadical', timeout=300,
                         must_have=['postcondition', 'loop_invariant_step', 'loop_decreases', 'pointer_dereference'],
                         clause='hex reader stays inside the buffer and never moves the cursor past end_offset'))
         out.append(dict(name='HexStringToNumber2<%s>.memory-safety' % c, unit=UNIT, fn=fn_hex2(c),
                         roots=['Qentem::Digit::HexStringToNumber<unsigned int, %s>' % c],
-                        specs=hex2_safety_specs(c), replace=[fn_hex3(c)], solver='cadical', timeout=300,
+                        specs=hex2_safety_specs(c), replace=[fn_hex3(c)], ghosts=GH_HEX, pre=HEX_PRE, solver='cadical', timeout=300,
                         must_have=['precondition'],
                         clause='two-argument hex reader passes a readable range to the scanning overload'))
     out.append(dict(name='stringToNumber<char>.memory-safety', unit=UNIT, fn=FN_S2N, roots=['Qentem::Digit::stringToNumber<char>'],
